@@ -18,7 +18,7 @@ func init() {
 		ID: "C02",
 		Rule: respFamilyRule + "; static half: per operation the registry's implementer set of the handler's result interface (go/types) is linked behaviourally to the documented responses (status written by a probe value) and must be a bijection; dynamic half: type-directed rapid values of every implementer are returned by a stub handler and the recorder is checked: status (caller's code for default), exactly one WriteHeader, Content-Type = the documented media type (absent without content), headers written = exactly the declared headers that are set, each parsing back to the field value under the reference lexical spaces, no undeclared header, body valid for the documented schema and equal to the Body field's encoding / the raw bytes / empty; " +
 			"non-trivial = operation with >=2 documented responses, value with headers or a non-empty body; distinct by (operation, response type, shape of the value)",
-		Assume: []string{"default codes are drawn from 200-599 minus the documented statuses, 204 and 304", "header strings are field-value text; required header arrays non-empty", "at most one media type per response"},
+		Assume:    []string{"default codes are drawn from 200-599 minus the documented statuses, 204 and 304", "header strings are field-value text; required header arrays non-empty", "when a response declares several media types the typed body is the application/json one (goag's documented choice); the other media types are not producible and not checked"},
 		Main:      func(e *Env) (*res.Result, error) { return respMain(e, "C02", false) },
 		MinNonTrv: 300,
 	})
@@ -26,7 +26,7 @@ func init() {
 		ID: "C10",
 		Rule: respFamilyRule + " generated with --client; (a) for every operation and implementer type, a type-directed rapid value is returned by the handler and Client.<Op> must return (r, nil) with r of the same Go type and equal Code, header fields and body (raw bodies by content); (b) a synthetic response with a status the operation does not document (body and headers written by a default-kind value when a default is declared) must come back as the default kind with that code, or as an error when no default is declared; " +
 			"non-trivial = value with a set/unset optional header, non-empty array or body, and every undocumented-status case; distinct by (operation, response type, shape) / (operation, status)",
-		Assume: []string{"same value domain as C02"},
+		Assume:    []string{"same value domain as C02"},
 		Main:      func(e *Env) (*res.Result, error) { return respMain(e, "C10", true) },
 		MinNonTrv: 300,
 	})
